@@ -382,6 +382,13 @@ def _zip_chain(x, name_acc):
             first = strip_refs(x.a[1][0])
             if first.k == "field" and strip_refs(first.a[0]).k == "downcast" and contains_call(first, lambda n_: n_ in name_acc):
                 payload_ok = True
+            # `look-up.into_iter().flatten()`: the found iterator's entries, or nothing — the same entries in the same order
+            if first.k == "call" and first.a[0].endswith("::flatten") and first.a[1]:
+                inner = strip_refs(first.a[1][0])
+                if inner.k == "call" and inner.a[0].endswith("::into_iter") and inner.a[1]:
+                    src = strip_refs(inner.a[1][0])
+                    if src.k == "call" and src.a[0] in name_acc:
+                        payload_ok = True
             break
         x = strip_refs(x.a[1][0])
     return chain_names, payload_ok, start_ok
